@@ -141,7 +141,9 @@ def register(PROPS):
                          {"id": "C08", "quick": 8000, "thorough": 200000, "thorough_seeds": 8},
                          {"id": "C05", "quick": 150, "thorough": 4000, "thorough_seeds": 4}]} if pid == "C04" else {}),
             **({"gens": [{"id": pid, "quick": 2500, "thorough": 60000, "thorough_seeds": 12, "race": True, "gomaxprocs": [1, 2, 16]},
-                         {"id": "C16S", "quick": 4000, "thorough": 100000, "thorough_seeds": 4}]} if pid in ("C06", "C17") else {}),
+                         {"id": "C16S", "quick": 4000, "thorough": 100000, "thorough_seeds": 4},
+                         # sessions of a Server (with and without a Logger) under Joe, one of them on a writer whose flush fails
+                         {"id": "SPUB", "quick": 600, "thorough": 20000, "thorough_seeds": 4}]} if pid in ("C06", "C17") else {}),
             "facts": {"hooks": ["Joe.Publish:3", "Joe.Shutdown:5", "Joe.Subscribe:7", "Joe.closeSubscribers:1", "Joe.init:6",
                                 "Joe.removeSubscriber:1", "Joe.start:11"]},
         }
